@@ -273,9 +273,23 @@ def run_case(case, env, res):
             from term_image.padding import ExactPadding as _EP
 
             other_size = (W % 5 + 1, H % 3 + 2)
-            subj = Subj(6, 5, rsize if route in ("ctor", "pad_after") else other_size, case["kind"])
-            it = RenderIterator(subj, None, padding if route in ("ctor", "size_after") else _EP(1, 0, 2, 1), -1, case["tag"] % 2 == 0)
-            k = case["tag"] % 3
+            if route == "repad_cached" and min(dims) >= 0:
+                # a whole loop is produced (and cached) under a twin of the padding: same
+                # padded size, everything on the other sides, another fill; the padding
+                # proper is set afterwards and applies to the (cached) frames from then on
+                twin = _EP(0, 0, dims[0] + dims[2], dims[1] + dims[3], "#" if fill != "#" else "*")
+                subj = Subj(3, 5, rsize, case["kind"])
+                it = RenderIterator(subj, None, twin, -1, True)
+                for _ in range(3 + case["tag"] % 2):
+                    next(it)
+                it.set_padding(padding)
+                route = "repad_cached!"
+            else:
+                if route == "repad_cached":
+                    route = "ctor"
+                subj = Subj(6, 5, rsize if route in ("ctor", "pad_after") else other_size, case["kind"])
+                it = RenderIterator(subj, None, padding if route in ("ctor", "size_after") else _EP(1, 0, 2, 1), -1, case["tag"] % 2 == 0)
+            k = case["tag"] % 3 if route != "repad_cached!" else 0
             frame = None
             if route == "pad_then_size":
                 it.set_padding(padding)
@@ -560,7 +574,7 @@ def gen(rnd, persona):
         pad = dict(type="aligned", width=wd, height=hd, h=rnd.randrange(3), v=rnd.randrange(3), fill=fill)
     case["pad"] = pad
     if surface == "iterator":
-        case["route"] = rnd.choice(["ctor", "size_after", "pad_after", "pad_then_size"])
+        case["route"] = rnd.choice(["ctor", "size_after", "pad_after", "pad_then_size", "repad_cached"])
     return case
 
 
